@@ -14,18 +14,35 @@ partial: method (M) constraints are checked only as "the executed order is a lin
      GenDAGPass derived" on stdlib CL designs; the derivation of block constraints from method constraints is not modelled.
 """
 from common import *
+import functools
 import sched_common as sc
 
 # (written object, read object, needs_order)
+def _allen(base, W):
+  """(written, read, needs_order) for the 13 relative positions of two slices of one W-bit object, both directions"""
+  p0, p1, p2, p3 = (0, 1, 2, 3) if W == 4 else (2, 3, 5, 6)
+  sl = lambda a, b: f'{base}[{a}:{b}]'
+  rel = [((0, p1), (p2, W), False),        # before
+         ((0, p2), (p2, W), False),        # meets
+         ((0, p2), (p1, W), True),         # overlaps
+         ((p1, p2), (p1, p3), True),       # starts
+         ((p1, p2), (p0, p3), True),       # during: the read strictly encloses the write on both sides
+         ((p2, p3), (p0, p3), True),       # finishes
+         ((p1, p3), (p1, p3), True)]       # equal
+  out = []
+  for (a, b, need) in rel:
+    out.append((sl(*a), sl(*b), need))
+    if a != b: out.append((sl(*b), sl(*a), need))
+  return out
+
 REL = [
-  ('s.x', 's.x', True), ('s.x[2:6]', 's.x', True), ('s.x', 's.x[2:6]', True), ('s.x[0:5]', 's.x[3:8]', True),
-  ('s.x[0:4]', 's.x[4:8]', False), ('s.x[3]', 's.x[2:5]', True), ('s.x[2:5]', 's.x[3]', True), ('s.x[3]', 's.x[4]', False),
+  ('s.x', 's.x', True), ('s.x[2:6]', 's.x', True), ('s.x', 's.x[2:6]', True),
+  ('s.x[3]', 's.x[2:5]', True), ('s.x[2:5]', 's.x[3]', True), ('s.x[3]', 's.x[4]', False), ('s.x[2]', 's.x[2:5]', True), ('s.x[4]', 's.x[2:5]', True), ('s.x[5]', 's.x[2:5]', False),
   ('s.p', 's.p.c', True), ('s.p.c', 's.p', True), ('s.p.p', 's.p.p.a', True), ('s.p.p.a', 's.p', True), ('s.p.p.b', 's.p.p', True),
-  ('s.p.p.a', 's.p.c', False), ('s.p.p.a[0:4]', 's.p.p.a[2:6]', True), ('s.p.p.a[0:4]', 's.p', True), ('s.p', 's.p.p.a[3]', True),
-  ('s.p.p.a[0:4]', 's.p.p.a[4:8]', False), ('s.p.p.a[0:4]', 's.p.p.b', False),
+  ('s.p.p.a', 's.p.c', False), ('s.p.p.a[0:4]', 's.p', True), ('s.p', 's.p.p.a[3]', True), ('s.p.p.a[0:4]', 's.p.p.b', False),
   ('s.q.v[1]', 's.q', True), ('s.q', 's.q.v[2]', True), ('s.q.v[1]', 's.q.v[1]', True), ('s.q.v[0]', 's.q.v[1]', False),
   ('s.q.v[2][0:2]', 's.q.v[2]', True), ('s.q.t', 's.q.v[0]', False),
-]
+] + _allen('s.x', 8) + _allen('s.p.p.a', 8) + _allen('s.q.v[2]', 4)
 WIDTH = {'s.x': 8, 's.p': 16, 's.p.c': 4, 's.p.p': 12, 's.p.p.a': 8, 's.p.p.b': 4, 's.q': 14, 's.q.t': 2}
 TYPE = {'s.p': 'Outer', 's.p.p': 'Pt', 's.q': 'Vec'}
 
@@ -303,7 +320,12 @@ def run(ctx):
   variants = [('simple', 0), ('simple', 1), ('forced', 0), ('forced', 1), ('forced', 2), ('dynamic', 0), ('unroll', 0), ('heuristic', 0), ('mamba', 0)]
   k = 0
   combos = [(W, R, need, wk, rk, ex) for (W, R, need) in REL for wk in ('blk', 'net') for rk in ('blk', 'net', 'ff') for ex in ('', 'chain', 'invert')]
-  if quick: combos = [c for c in combos if c[5] != 'invert' or (c[3] == 'blk' and c[4] == 'blk')]
+  if quick:
+    combos = [c for c in combos if c[5] != 'invert' or (c[3] == 'blk' and c[4] == 'blk')]
+    # the systematic slice-position table: every relation with block writer/reader, the other kinds on s.x only
+    nrel0 = len(REL) - 3 * 13
+    allen = {(W, R) for (W, R, _) in REL[nrel0:]}
+    combos = [c for c in combos if (c[0], c[1]) not in allen or (c[5] == '' and ((c[3], c[4]) == ('blk', 'blk') or c[0].startswith('s.x[')))]
   for (W, R, need, wk, rk, ex) in combos:
     if ex == 'invert' and not (wk == 'blk' and rk == 'blk'): continue
     if wk == 'net' and '[' in W and W.count('[') > 1 and not W.startswith('s.q'): continue
@@ -322,6 +344,10 @@ def run(ctx):
     g = sc.Gen(random.Random(rng.randrange(1 << 30)), f'R{j}', size=rng.choice(['medium', 'large'])).build()
     cls, _ = sc.load_source(ctx, g.source(), g.name)
     check_orders(ctx, g.name, g.source(), cls, variants, coq_cases, coq_meta)
+    if g.param:
+      # the same class elaborated again in this process with another construct-time parameter (other block bodies)
+      cls1 = functools.partial(cls, 1); cls1.__name__ = cls.__name__
+      check_orders(ctx, g.name + '_p1', g.source() + f'\n# elaborated as {g.name}( 1 ) after {g.name}( 0 ) in the same process\n', cls1, variants[::2], coq_cases, coq_meta)
   # writes/reads through @s.func helpers; blocks calling blocking methods (greenlet-wrapped)
   for j in range(6 if quick else 40):
     src = func_design(f'FN{j}', rng)
@@ -413,10 +439,18 @@ class St( Component ):
     elif kind == 2: s.add_constraints( U( up_st ) < M( s.recv ) )
     elif kind == 3: s.add_constraints( M( s.recv ) < M( s.aux ), M( s.aux ) < U( up_st ) )     # through a method nobody calls
     elif kind == 4: s.add_constraints( U( up_st ) < M( s.aux ), M( s.aux ) < M( s.recv ) )     # the same, the other way round
+    elif kind == 5: s.add_constraints( M( s.recv ) < M( s.aux ), M( s.aux ) == M( s.aux2 ), M( s.aux2 ) < U( up_st ) )   # an equivalence in the middle of the chain
+    elif kind == 6: s.add_constraints( U( up_st ) < M( s.aux ), M( s.aux ) == M( s.aux2 ), M( s.aux2 ) < M( s.recv ) )
+    elif kind == 7: s.add_constraints( M( s.recv ) == M( s.aux ), M( s.aux ) < M( s.aux2 ), M( s.aux2 ) == M( s.aux3 ), M( s.aux3 ) < U( up_st ) )
+    elif kind == 8: s.add_constraints( U( up_st ) < M( s.aux ), M( s.aux ) == M( s.aux2 ), M( s.aux2 ) == M( s.aux3 ), M( s.aux3 ) < M( s.recv ) )
   @non_blocking( lambda s: len( s.q ) < 2 )
   def recv( s, msg ): s.q.append( msg )
   @non_blocking( lambda s: True )
   def aux( s ): return 0
+  @non_blocking( lambda s: True )
+  def aux2( s ): return 0
+  @non_blocking( lambda s: True )
+  def aux3( s ): return 0
 class Pull( Component ):
   def construct( s ):
     s.get = CallerIfcCL(); s.send = CallerIfcCL()
@@ -441,7 +475,7 @@ def cl_design(name, rng):
       L += [f's.q{i} = {Q}( {rng.randrange(1, 3)} )', f's.p{i} = Pull()', f'connect( {prev}, s.q{i}.enq )', f'connect( s.p{i}.get, s.q{i}.deq )']
       prev = f's.p{i}.send'
     else:
-      L += [f's.t{i} = St( {rng.randrange(0, 5)} )', f'connect( {prev}, s.t{i}.recv )']
+      L += [f's.t{i} = St( {rng.randrange(0, 9)} )', f'connect( {prev}, s.t{i}.recv )']
       prev = f's.t{i}.send'
   L.append(f'connect( {prev}, s.snk.recv )')
   body = '\n'.join('    ' + l for l in L)
@@ -476,11 +510,23 @@ def cl_method_designs(ctx, coq_cases, coq_meta):
           def mkey(f):
             f = und(f)
             return (getattr(f, '__func__', f).__code__, id(getattr(f, '__self__', None)))
-          cons = []
+          cons = []; eqs = []
+          node = lambda x: ('b', fpl.cid[x]) if x in fpl.cid else ('m', mkey(x))
           for (x, y, eq) in top._dsl.all_M_constraints:
-            if eq: continue
-            cons.append((('b', fpl.cid[x]) if x in fpl.cid else ('m', mkey(x)), ('b', fpl.cid[y]) if y in fpl.cid else ('m', mkey(y))))
-          mkeys = {n_[1] for c_ in cons for n_ in c_ if n_[0] == 'm'}
+            (eqs if eq else cons).append((node(x), node(y)))
+          # M(x) == M(y): the two methods are one point of the order; merge them (union-find), callers included
+          par = {}
+          def find(u):
+            while par.get(u, u) != u: u = par[u]
+            return u
+          for (x, y) in eqs:
+            rx, ry = find(x), find(y)
+            if rx != ry: par[rx] = ry
+          members = {}
+          for n_ in {n_ for c_ in cons + eqs for n_ in c_}: members.setdefault(find(n_), set()).add(n_)
+          if eqs: ctx.hist['cl-method-equivalences'] = ctx.hist.get('cl-method-equivalences', 0) + len(eqs)
+          cons = [(find(x), find(y)) for (x, y) in cons]
+          mkeys = {n_[1] for ms in members.values() for n_ in ms if n_[0] == 'm'}
           # observed call graph
           calls = set(); stack = []
           bcodes = {}
@@ -501,8 +547,13 @@ def cl_method_designs(ctx, coq_cases, coq_meta):
           try:
             for _ in range(8): top.sim_tick()
           finally: _sys.setprofile(None)
+          callers0 = {}
+          for (b_, k) in calls: callers0.setdefault(k, set()).add(b_)
+          # callers of a merged point: the callers of all its member methods
           callers = {}
-          for (b_, k) in calls: callers.setdefault(k, set()).add(b_)
+          for rep, ms in members.items():
+            if rep[0] == 'm':
+              callers[rep[1]] = set().union(*[callers0.get(n_[1], set()) for n_ in ms if n_[0] == 'm'])
           # closure over method-only chains
           succ = {}
           for (x, y) in cons: succ.setdefault(x, set()).add(y)
